@@ -247,6 +247,13 @@ def check(prop, tier, seed):
         "simulated_steps": sum(p["steps"] for p in parts),
         "simulated_time": "none (the system under test has no clock, timer or I/O); logical steps counted",
         "runs_per_hour": int(evaluations / max(sum(p["wall_s"] for p in parts), 1e-3) * 3600),
+        "seeds_per_hour": int(evaluations / max(sum(p["wall_s"] for p in parts), 1e-3) * 3600),
+        "seeds_note": "every run has its own derived seed, so seeds per hour = runs per hour (batch wall time only, builds excluded)",
+        "process_isolation": {
+            "chunks": sum(p.get("chunks", 0) for p in parts),
+            "what": "every chunk of consecutive runs executed in a fresh child process; replay files verified in a fresh process before being reported",
+        },
+        "distinct_interleavings_measure": {k: v for p in parts for k, v in p.get("set_sizes", {}).items() if "interleav" in k} or None,
         "seeds": f"VERIF_SEED={seed}; run i of a batch uses derive(seed, layer, config, i)",
         "builds": builds,
         "batches": batches,
